@@ -8,13 +8,27 @@
 (* into a vector, each with the defined result, the defined observables    *)
 (* after the call, and the defined final content.  A refused call that     *)
 (* leaves residue shows up in the observables or in the final content.     *)
+(* The abstract builder state hides what the implementation remembers      *)
+(* between calls (a pending run, a flushed run), so with Memory = 1 the     *)
+(* VIEW also keeps the CLASS of the last call (operation, result, position *)
+(* of its argument relative to the end): every reachable (state, class of  *)
+(* the previous call) is expanded with every call - a cover of all pairs   *)
+(* of consecutive calls, including calls that leave the abstract state     *)
+(* unchanged (set_len to the current length, empty runs, refused calls).   *)
 (***************************************************************************)
 EXTENDS SDSBuilder, TLC, Json
-CONSTANTS Kind, MaxU, MaxCap, MaxLen
+CONSTANTS Kind, MaxU, MaxCap, MaxLen, Memory
 
-VARIABLES b, hist, init
-vars == <<b, hist, init>>
-View == <<b, init>>
+VARIABLES b, hist, init, last
+vars == <<b, hist, init, last>>
+View == <<b, init, IF Memory = 1 THEN last ELSE 0>>
+Sign(x) == IF x < 0 THEN -1 ELSE IF x = 0 THEN 0 ELSE 1
+\* class of a call made in state s
+CallClass(s, c, res) ==
+    IF s.kind = "sparse"
+    THEN <<c.op, res, IF c.op = "extend" THEN Len(c.is) ELSE IF c.i < 0 THEN 9 ELSE Sign(c.i - s.next)>>
+    ELSE IF c.op = "try_set" THEN <<c.op, res, IF c.i < 0 THEN 9 ELSE Sign(c.i - s.len), Sign(c.n)>>
+    ELSE <<c.op, res, Sign(c.n - s.len), 0>>
 
 SparseCalls(s) ==
     {[op |-> "try_set", i |-> i] : i \in 0..(s.universe + 1) \cup {-1}}
@@ -27,7 +41,7 @@ RLCalls(s) ==
 
 Calls(s) == IF s.kind = "sparse" THEN SparseCalls(s) ELSE RLCalls(s)
 
-Init == /\ hist = << >>
+Init == /\ hist = << >> /\ last = << >>
         /\ IF Kind = "sparse"
            THEN \E u \in 0..MaxU : \E m \in 0..MaxCap : \E multi \in BOOLEAN :
                   /\ (multi \/ NewSparseOK(u, m))
@@ -55,6 +69,7 @@ Next == /\ (b.kind = "rl" => b.len <= MaxLen)
                  h == Append(hist, Entry(c, r))
              IN /\ b' = r.b
                 /\ hist' = h
+                /\ last' = CallClass(b, c, r.res)
                 /\ UNCHANGED init
                 /\ PrintT(<<"REPLAY", ToJson(Behaviour(h, r.b))>>)
 
